@@ -266,6 +266,14 @@ def unambiguous(ctx, prog, mod, reg_in, reg_out, OP):
                        detail="" if not unify else "every position has a token both accept: a script of this shape is classified by list order only",
                        key=f"C15-T3/UNAMBIG|{a.name}|{b.name}")
     ctx.floor("C15-T3/UNAMBIG", "template pairs compared", n, 79, site=f"{mod.relpath}:300")
+    # classification is first-match in list order: a template with a greedy PUSH_MANY element accepts token sequences that fixed-shape templates accept too
+    # (an empty push is the byte OP_0), so every fixed-shape template must be tried before any greedy one
+    for label, lst in (("input", reg_in), ("output", reg_out)):
+        many = [i for i, t in enumerate(lst) if has_many(t)]
+        fixed = [i for i, t in enumerate(lst) if not has_many(t)]
+        ok = not many or not fixed or min(many) > max(fixed)
+        ctx.ob("C15-T3/UNAMBIG", ok, f"{mod.relpath}:300", f"{label} templates: every fixed-shape template is registered before any template with a PUSH_MANY element",
+               detail="" if ok else "order: " + ", ".join(f"{t.name}{'*' if has_many(t) else ''}" for t in lst), key=f"C15-T3/UNAMBIG|order|{label}")
     # every element of every registered template can match something
     for t in reg_out + reg_in:
         dead = [o for o in (t.ops or ()) if not accepted(o, OP)]
@@ -396,6 +404,37 @@ _base_check_c15 = check
 def check(ctx):            # noqa: F811  (extends the rules above)
     _base_check_c15(ctx)
     engines(ctx, ctx.prog)
+    payloads(ctx, ctx.prog)
+
+
+def payloads(ctx, prog):
+    """push_data(x) writes len(x) as the length prefix and bytes(x) as the payload.  Claim / support payloads are Signable objects, not bytes: the two
+    views agree only if __len__ IS the length of __bytes__ — a separately computed length (fixed signature size, …) mis-frames every payload whose
+    real size differs and the script no longer parses back."""
+    import ast
+    from ..astutil import unparse, dotted
+    from .. import rules as R
+    pd = ctx.fa(f"{S}.push_data")
+    d = pd.fi.params()[0]
+    sz = [s for s in pd.stmts(ast.Assign) if unparse(s.value) == f"len({d})"]
+    ys = [y for y in pd.local_nodes(ast.Yield) if y.value is not None and unparse(y.value) == f"bytes({d})"]
+    ctx.ob("C15-T7/PAYLOAD", len(sz) == 1 and len(ys) == 1, pd.site(), "push_data: prefix from len(data), payload bytes(data)", func=pd.fi.qualname, key="C15-T7/PAYLOAD|push_data")
+    n = 0
+    for cq, c in sorted(prog.classes.items()):
+        if not cq.startswith("lbry.schema.") or "__bytes__" not in c.methods:
+            continue
+        n += 1
+        fb = ctx.fa(f"{cq}.__bytes__")
+        rb = R.single_return_value(fb)
+        if "__len__" not in c.methods:
+            ctx.ob("C15-T7/PAYLOAD", False, fb.site(), f"{c.name} defines __len__ next to __bytes__", func=fb.fi.qualname, key=f"C15-T7/PAYLOAD|{cq}|has-len")
+            continue
+        fl = ctx.fa(f"{cq}.__len__")
+        rl = R.single_return_value(fl)
+        ok = rb is not None and rl is not None and unparse(rl.value) in (f"len({unparse(rb.value)})", "len(bytes(self))", "len(self.__bytes__())")
+        ctx.ob("C15-T7/PAYLOAD", ok, fl.site(), f"{c.name}.__len__ is the length of exactly what __bytes__ returns", detail="" if ok else f"__len__: {unparse(rl.value) if rl else '?'}; "
+               f"__bytes__: {unparse(rb.value) if rb else '?'}", func=fl.fi.qualname, key=f"C15-T7/PAYLOAD|{cq}|len-of-bytes")
+    ctx.floor("C15-T7/PAYLOAD", "schema classes with __bytes__", n, 1)
 
 
 def engines(ctx, prog):
